@@ -20,7 +20,7 @@ def c02(tier):
         Harness('VHarnessAmountChecked', 'cashu', ['cashu/zz_verif_cashu.go'], bounds='<= 4 outputs, amounts full 64 bit', must_reach=('ok', 'overflow')),
     ]
 
-MINT_FILES = ['mint/zz_verif_env.go', 'mint/zz_verif_swap.go', 'mint/zz_verif_melt.go', 'mint/zz_verif_quotes.go', 'mint/zz_verif_minttokens.go', 'mint/zz_verif_query.go', 'mint/zz_verif_hook.go', 'mint/zz_verif_crash.go', 'mint/zz_verif_sched.go', 'mint/zz_verif_keysets.go', 'mint/zz_verif_sigall.go', 'cashu/nuts/nut11/zz_verif_p2pk.go', 'mint/storage/sqlite/zz_verif_db.go']
+MINT_FILES = ['mint/zz_verif_env.go', 'mint/zz_verif_swap.go', 'mint/zz_verif_melt.go', 'mint/zz_verif_quotes.go', 'mint/zz_verif_minttokens.go', 'mint/zz_verif_query.go', 'mint/zz_verif_hook.go', 'mint/zz_verif_crash.go', 'mint/zz_verif_sched.go', 'mint/zz_verif_server.go', 'mint/zz_verif_keysets.go', 'mint/zz_verif_sigall.go', 'cashu/nuts/nut11/zz_verif_p2pk.go', 'mint/storage/sqlite/zz_verif_db.go']
 MINT_MODELS = ('std', 'crypto', 'json', 'sql', 'mint', 'threads')
 MINT_ASSUME = COMMON_ASSUME + [
     'keysets of the harness mint hold the denominations {1, 2, 2^63} only (the 60-entry tables are cut; the arithmetic kernels are checked at full width separately)',
@@ -31,7 +31,8 @@ MINT_ASSUME = COMMON_ASSUME + [
 def mint_h(name, bounds, **kw):
     kw.setdefault('summaries', ('h2c', 'nut10-none'))
     kw.setdefault('crypto_mode', 'euf')
-    return Harness(name, 'mint', MINT_FILES, models=MINT_MODELS, bounds=bounds, **kw)
+    kw.setdefault('models', MINT_MODELS)
+    return Harness(name, 'mint', MINT_FILES, bounds=bounds, **kw)
 
 def c01(tier):
     return [
@@ -149,11 +150,18 @@ def c17(tier):
     return [w_h('VHarnessWalletMelt', 'melt: 1..2 held proofs of 2^0..2^3, amount 1..8, reserve 0..2, ppk in {0,100,1000}, outcome paid/pending/failed, pending then settled either way', must_reach=('melt-outcome-0', 'melt-outcome-1', 'melt-outcome-2', 'melt-resolved')),
             w_h('VHarnessWalletMint', 'mint tokens', must_reach=('minted',)),
             w_h('VHarnessWalletMintThenSend', 'mint then send through a swap', must_reach=('sent',))]
+def c20(tier):
+    kw = dict(models=MINT_MODELS + ('http',))
+    return [mint_h('VHarnessServerSwap', 'POST /v1/swap handler with hand-built JSON: 1 input (genuine or arbitrary), 1 arbitrary output, 1 arbitrary spent row; replay and two near-replays', must_reach=('swap-200', 'swap-refused'), **kw),
+            mint_h('VHarnessServerMint', 'POST /v1/mint/bolt11 handler with hand-built JSON: stored quote in any state (or none), arbitrary quote id in the request, 1 arbitrary output, backend invoice lookup settled / unsettled / failing; replay', must_reach=('mint-200', 'mint-refused', 'mint-backend-failure'), **kw),
+            mint_h('VHarnessServerKeysCache', 'GET /v1/keys then GET /v1/keys/{id} for an arbitrary id string, twice', must_reach=('known-keyset', 'unknown-keyset'), **kw),
+            mint_h('VHarnessServerQuoteStates', 'GET mint / melt quote state for a stored quote in every state', must_reach=('mint-quote-state', 'melt-quote-state'), **kw)]
 def c10(tier):
     kw = dict(models=('std', 'crypto', 'json'), crypto_mode='alg')
     return [Harness('VHarnessBDHKE', 'crypto', ['crypto/zz_verif_bdhke.go'], summaries=('h2c',), bounds='every secret (string of any length), every blinding factor, every key: all symbolic', must_reach=('done',), **kw),
             Harness('VHarnessDLEQ', 'crypto', ['crypto/zz_verif_bdhke.go'], summaries=('h2c',), bounds='every key, blinded message, nonce; arbitrary (e, s, A, B\', C\') for the specification equivalence', must_reach=('complete', 'spec'), **kw),
-            Harness('VHarnessDLEQWallet', 'cashu/nuts/nut12', ['cashu/nuts/nut12/zz_verif_dleq.go', 'crypto/zz_verif_bdhke.go'], summaries=('h2c',), bounds='every secret, key, blinding factor, nonce', must_reach=('done',), **kw)]
+            Harness('VHarnessDLEQWallet', 'cashu/nuts/nut12', ['cashu/nuts/nut12/zz_verif_dleq.go', 'crypto/zz_verif_bdhke.go'], summaries=('h2c',), bounds='every secret, key, blinding factor, nonce', must_reach=('done',), **kw),
+            Harness('VHarnessDLEQToken', 'cashu/nuts/nut12', ['cashu/nuts/nut12/zz_verif_dleq.go', 'crypto/zz_verif_bdhke.go'], summaries=('h2c',), bounds='token of 2 proofs over a keyset of 2 keys, every secret / key / blinding factor / nonce; the amount of one proof replaced by any other 64-bit value, in either position', must_reach=('token',), **kw)]
 def c11(tier):
     kw = dict(models=('std', 'crypto', 'json'), crypto_mode='euf')
     F = ['crypto/zz_verif_bdhke.go', 'crypto/zz_verif_derive.go']
@@ -171,6 +179,7 @@ C10_ASSUME = COMMON_ASSUME + [
 ]
 
 PROPS = {
+    'C20': dict(harnesses=c20, level='bounded symbolic verification (reduced scope): handler decisions and structural JSON shape over a handler-level model of net/http', assumptions=MINT_ASSUME + ['net/http and gorilla/mux modelled at the handler level: request = method + URL + path variables + body, response = recorded status and body'], outside=['byte-exactness of encoding/json output', 'gorilla/mux routing', 'websocket subscriptions (NUT-17)', 'cache expiry timing, CORS headers', 'handlers other than swap, keys, quote state (mint/melt/checkstate/restore handlers share writeErr and decodeJsonReqBody)']),
     'C19': dict(harnesses=c19, level='bounded symbolic verification: counters submitted vs counters stored per operation, restore arithmetic over a symbolic emptiness pattern', assumptions=WALLET_ASSUME + C11_ASSUME, outside=['bolt.go', 'bip39', 'wallet crash points (the WalletDB calls are instrumented but the crash harness is not built)', 'more than 4 batches']),
     'C08': dict(harnesses=c08, level='bounded symbolic verification: every HTTP request body produced by the real client.go is decoded and inspected', assumptions=WALLET_ASSUME, outside=['transport below client.go, side channels', 'mint-to-mint swap, multi-mint payments']),
     'C17': dict(harnesses=c17, level='bounded symbolic verification (reduced scope): per-operation conservation step for one wallet against an honest-contract mint', assumptions=WALLET_ASSUME, outside=['multi-wallet / multi-mint histories as a whole (argued by composition)', 'swapToTrusted / MintSwap / MultiMintPayment', 'bolt.go', 'the real mint behind the fake (C01/C02/C05)']),
